@@ -89,6 +89,13 @@ def main(argv):
     if out[1]["crashes"]:
         for item in out[1]["stress_failures"].split("; "):
             idx = int(item.split(":")[0])
+            known = None
+            for f in c.findings:
+                if f.get("match", {}).get("stress_case") and f["match"]["stress_case"] in item:
+                    known = f
+            if known:
+                c.known(known["id"], "%s [%s] e.g. stress case %s" % (known["what"], known["id"], item))
+                continue
             c.violation("C13: structural stress case crashes / hangs ninja: %s" % item, {"format": "stress", "case": idx, "what": item})
     fams.append({"format": "stress", "cases": out[1]["inputs"], "crashes": out[1]["crashes"]})
     uniq = {}
